@@ -194,6 +194,28 @@ def main():
         fg = [b.split("\n") for b in res[("fdupes", False)].strip("\n").split("\n\n")] if res.get(("fdupes", False), "").strip() else []
         if fg != [f for _, f in groups]:
             devs.append(dict(tag, what="fdupes groups differ from the text groups"))
+    # very large (sparse) files: the order is by decreasing size also above 4 GiB (only prefixes / suffixes are read)
+    big = os.path.join(d, "big")
+    os.makedirs(big)
+    try:
+        for i, size in enumerate((4 * 2 ** 30 + 7, 4 * 2 ** 30, 4 * 2 ** 30 - 1, 8 * 2 ** 30 + 4096, 1048576, 12)):
+            for n in ("a", "b"):
+                pth = os.path.join(big, "s%d_%s" % (i, n))
+                with open(pth, "wb") as f:
+                    f.write(b"head%d" % i)
+                os.truncate(pth, size)
+        for fmt in ("default", "json"):
+            r = subprocess.run([binary, "group", "--skip-content-hash", "-f", fmt, big], stdout=subprocess.PIPE, stderr=subprocess.PIPE, env=env, timeout=300, cwd=d)
+            runs += 1
+            out = r.stdout.decode(errors="replace")
+            if fmt == "json":
+                sizes = [g["file_len"] for g in json.loads(out)["groups"]]
+            else:
+                sizes = [sz for sz, cnt, files in parse_text(out)[1]]
+            if sizes != sorted(sizes, reverse=True) or len(sizes) != 6:
+                devs.append({"options": ["--skip-content-hash"], "format": fmt, "what": "groups of very large files not ordered by decreasing size: %s" % sizes})
+    except OSError as e:
+        pass        # no sparse-file support here: scenario skipped
     print(json.dumps({"runs": runs, "n": len(devs), "deviations": devs[:8]}))
     shutil.rmtree(d, ignore_errors=True)
 
